@@ -617,6 +617,7 @@ where
     let mut ended = false;
     let mut stuck = false;
     let mut idle_since: Option<Instant> = None;
+    let mut idle_rounds = 0usize;
     let mut panicked: Option<String> = None;
     let mut script = cfg.env_script.iter().copied();
     loop {
@@ -708,8 +709,12 @@ where
                 }
                 // nothing to open: a helper thread may be sleeping for a retry delay, or the runner
                 // is in a yield chain; keep polling for a bounded wall time
+                // (wall time alone is not evidence: the whole machine may have been frozen for seconds; the
+                // run must also have gone through many idle rounds of its own)
+                if idle_since.is_none() { idle_rounds = 0; }
+                idle_rounds += 1;
                 let since = *idle_since.get_or_insert_with(Instant::now);
-                if since.elapsed() > Duration::from_millis(4000) {
+                if since.elapsed() > Duration::from_millis(4000) && idle_rounds > 300 {
                     log("HARNESS stuck".to_owned());
                     stuck = true;
                     break;
